@@ -112,6 +112,10 @@ for it in range(R.n(8, 100)):
     R.check('gain/channelized_stds-unchanged', dict(c, nsub=nsub, digitize=dig), all(np.array_equal(inj.filterbank[a][p].channelized_stds, [0.7, 0.7]) for a in range(nant) for p in range(npol)),
             [list(map(float, inj.filterbank[0][0].channelized_stds))])
     outb = blocks_of(stem_out, nant, nc, npol, nbits)
+    h_out = outb[0][0] if outb else {}
+    R.check('framing/reported-length-is-the-clamped-one', dict(c, nsub=nsub, requested=N + 2), inj.num_blocks == N and abs(inj.obs_length - N * inj.time_per_block) <= 1e-12 * inj.obs_length
+            and inj.total_obs_num_samples == N * inj.samples_per_block * inj.num_branches and bool(h_out) and abs(float(h_out['SCANLEN']) - N * inj.time_per_block) <= 1e-9 * N * inj.time_per_block
+            and int(h_out['PKTSTOP']) - int(h_out['PKTSTART']) == N * inj.samples_per_block, [inj.num_blocks, inj.obs_length, h_out.get('SCANLEN'), h_out.get('PKTSTOP')])
     R.check('framing/at-most-input-blocks-same-sizes', dict(c, nsub=nsub), len(outb) == N and all(int(h['BLOCSIZE']) == bs and int(h['NBITS']) == nbits for h, _ in outb), len(outb))
     for fn in os.listdir(R.tmp):
         os.unlink(os.path.join(R.tmp, fn))
